@@ -265,10 +265,10 @@ def main(tier, replay_file=None):
         "C17", tier, "model_checking", FUNCTIONS,
         bounds=dict(categories="0..2 (thorough 0..3) categories with "
                                "enumerated distinct types, word length "
-                               "0..4 (6) symbolic, contents symbolic",
+                               "0..3 (4) symbolic, contents symbolic",
                     identity="vendor, product, revision, serial: 32-bit symbolic",
-                    interface="4- and 8-byte reads; busy 0..1 (2) polls for the "
-                              "first 2 (4) read commands (symbolic), 0 after; unused status bits symbolic",
+                    interface="4- and 8-byte reads; busy 0..1 polls for the "
+                              "first 2 (3) read commands (symbolic), 0 after; unused status bits symbolic",
                     sync_managers="1..4 entries, offset/size/mode symbolic",
                     pdos="up to 2 PDOs x up to 2 (3) entries per direction, "
                          "bit lengths from {1,2,3,4,8,16,32,64} symbolic, gaps "
@@ -278,14 +278,14 @@ def main(tier, replay_file=None):
         stubs=["SII register model (0x502/0x504/0x508) per the ESC data sheet",
                "bus model at the datagram interface"])
     items = []
-    maxws = 3 if quick else 6
-    busy = 1 if quick else 2
+    maxws = 3 if quick else 4
+    busy = 1
     typesets = [(41, 50, 51), (10, 30, 41)]
     for ncat in ([0, 1, 2] if quick else [0, 1, 2, 3]):
         for eight in (True, False):
             for ts in (typesets[:1] if quick else typesets):
                 items.append(("eeprom", ncat, ts, maxws, eight, busy,
-                              2 if quick else 4))
+                              2 if quick else 3))
     for n in (1, 2, 3, 4):
         items.append(("sm", n))
     for shape in ([[1], [2], [1, 1]] if quick else [[1], [2], [3], [1, 1], [2, 1], [2, 2]]):
